@@ -193,6 +193,8 @@ func anyCases() []anyCase {
 	ch := make(chan int)
 	var iface any = &pone
 	type named string
+	type namedBytes []byte
+	type namedByteArray [4]byte
 	deep := any("leaf")
 	for i := 0; i < 2000; i++ {
 		deep = []any{deep}
@@ -211,6 +213,9 @@ func anyCases() []anyCase {
 		{"error", fmt.Errorf("boom")}, {"time", time.Unix(0, 0)}, {"reflect.Value", reflect.ValueOf(1)}, {"map-with-nil-values", map[string]any{"a": nil, "c": nil}}, {"map-with-chan", map[string]any{"a": ch, "c": []any{func() {}}}},
 		{"slice-of-maps-with-bad-leaves", []any{map[string]any{"a": complex(1, 1)}, map[any]any{ch: 1}}}, {"deep-slices-2000", deep}, {"deep-maps-2000", deepMap},
 		{"map-a-wrong-types", map[string]any{"a": []any{1}, "b": "x", "c": "y", "d": []any{}}}, {"map-a-string", map[string]any{"a": "v", "b": int64(1) << 40, "c": []any{"x", 1}, "d": map[string]any{"x": "not a number"}}},
+		{"byte-array", [3]byte{1, 2, 3}}, {"byte-array-pointer", &[3]byte{1, 2, 3}}, {"byte-array-in-map", map[string]any{"a": [2]byte{1, 2}, "b": [0]byte{}, "c": [2]byte{3, 4}, "d": [1]byte{5}}},
+		{"byte-array-in-slice", []any{[2]byte{1, 2}, "x"}}, {"named-bytes", namedBytes{1, 2}}, {"named-bytes-in-map", map[string]any{"a": namedBytes("x"), "c": []any{namedBytes("y")}}},
+		{"named-byte-array", namedByteArray{1, 2, 3, 4}}, {"int8-slice", []int8{1, 2}}, {"uint16-array", [2]uint16{1, 2}}, {"rune-slice", []rune("ab")}, {"empty-byte-array", [0]byte{}},
 		{"union-two-members", map[string]any{"string": "x", "int": 1}}, {"union-nil-member", map[string]any{"string": nil}}, {"big-float-to-int", 1e300}, {"negative-to-uint", -1}, {"string-number", "12"}, {"string-bool", "true"},
 	}
 }
